@@ -332,8 +332,9 @@ Theorem expected_flags_nth h f i c :
 Proof.
   intros E. unfold expected_flags.
   pose proof (classify_nth h f (h_chunks h) true i c E) as Ec. cbn [andb] in Ec.
-  destruct (all_true _ && negb (uflag h) && negb (data_good H h f));
-    apply (map_nth_error _ _ _ Ec).
+  destruct (all_true _ && negb (uflag h) && negb (data_good H h f)).
+  - apply (map_nth_error (fun _ : bool => (-1)%Z) _ _ Ec).
+  - apply (map_nth_error flag_of _ _ Ec).
 Qed.
 
 Theorem expected_ret_iff h f :
